@@ -265,6 +265,7 @@ type concOutcome struct {
 	insitu      []string
 	panicked    string
 	overlapping int
+	crowd       bool // >40 concurrent clients: judged by the definite rules only
 }
 
 // runConcWorkload executes the workload and returns the recorded history.
@@ -286,7 +287,7 @@ func runConcWorkload(c core.Case, res *core.Result) *concOutcome {
 	for _, k := range keys {
 		fps[utils.Hash(k)] = true
 	}
-	out := &concOutcome{nk: nk, cfg: cfg, keys: keys}
+	out := &concOutcome{nk: nk, cfg: cfg, keys: keys, crowd: c.Int("clients", 0) > 40}
 	if len(fps) != nk {
 		res.Verdict = "inconclusive"
 		res.Inconcl = "fingerprint collision in the key universe"
@@ -388,6 +389,11 @@ func judgeConc(out *concOutcome, res *core.Result, owner string) {
 		}
 	}
 	ctx := fmt.Sprintf("\nconfig: %s keys %q (%d transactions)", gen.CfgString(out.cfg), out.keys, len(out.txns))
+	if out.crowd {
+		lightCheckThreshold = 0
+	} else {
+		lightCheckThreshold = 1 << 30
+	}
 	sv := checkOps(snapOps(out.txns), out.nk, 30*time.Second, idx)
 	switch sv.Result {
 	case "illegal":
@@ -402,9 +408,15 @@ func judgeConc(out *concOutcome, res *core.Result, owner string) {
 	case "unknown":
 		res.AddObs("ser_checker_timeouts", 1)
 	}
+	if sv.Result == "skipped" || ev.Result == "skipped" {
+		res.AddObs("crowd_histories_judged_by_definite_rules_only", 1)
+	}
 	res.AddObs("snap_ops", int64(sv.Ops))
 	res.AddObs("ser_ops", int64(ev.Ops))
 	for _, f := range localRules(out.txns) {
+		res.Violate(f.Prop, f.Prop+"/conc/"+f.Sig, "%s%s", f.Detail, ctx)
+	}
+	for _, f := range lostUpdates(out.txns) {
 		res.Violate(f.Prop, f.Prop+"/conc/"+f.Sig, "%s%s", f.Detail, ctx)
 	}
 	fs, judged, unjudged := conflictRules(out.txns)
@@ -529,8 +541,15 @@ func genTxn(prop string, tier string, seed int64, scriptedQ, scriptedT, concQ, c
 			N: map[string]int64{"clients": int64(4 + r.Intn(9)), "txns": int64(30 + r.Intn(31))}}
 		if i%3 == 1 {
 			c.N["procs"] = int64(1 + i%2)
-			c.N["clients"] = int64(12 + r.Intn(13))
-			c.N["txns"] = int64(15 + r.Intn(16))
+			c.N["clients"] = int64(8 + r.Intn(7))
+			c.N["txns"] = int64(12 + r.Intn(10))
+		}
+		if i%10 == 5 {
+			// a crowd: more client goroutines than the watermark channels have slots, on 1-2
+			// processors - senders park inside Begin/Done with their marks not yet queued
+			c.N["procs"] = int64(1 + i%2)
+			c.N["clients"] = int64(120 + r.Intn(60))
+			c.N["txns"] = int64(4 + r.Intn(3))
 		}
 		if i < 1 {
 			c.N["sample"] = 1
@@ -541,7 +560,7 @@ func genTxn(prop string, tier string, seed int64, scriptedQ, scriptedT, concQ, c
 }
 
 const txnRuleScripted = "scripted cases: one goroutine owns up to 6 open transactions on 3-6 hostile keys and executes 100-300 seeded steps (Begin ro/rw, Get, Set, Delete, Commit, Discard, View/Update closures incl. failing ones, misuse calls, drain, reopen) against a database with tiny thresholds; an MVCC store + the SSI conflict rule predict every Get and every Commit result exactly; 'oldreader' scripts keep one read-write transaction open over 30-600 steps of other commits before it writes and commits; "
-const txnRuleConc = "concurrent cases: 4-12 client goroutines x 30-60 transactions (read-modify-write, write-skew pairs, read-only audits, blind and multi-key writes, random) on 3-6 shared keys, flush queue 0-4, memtable 1-1000 B, delay profiles at the schedule points, every third history with 12-24 clients on 1-2 processors (a woken goroutine runs long after its wake-up); every call recorded with one atomic logical clock; checked offline with porcupine (snapshot-read model at Begin intervals, strict-serializability model over whole lifetimes; single-key and key-pair projections first, then the full history), conflict interval rules and local rules (no reads of uncommitted/overwritten/alien values); "
+const txnRuleConc = "concurrent cases: 4-12 client goroutines x 30-60 transactions (read-modify-write, write-skew pairs, read-only audits, blind and multi-key writes, random) on 3-6 shared keys, flush queue 0-4, memtable 1-1000 B, delay profiles at the schedule points, every third history with 8-14 clients on 1-2 processors (a woken goroutine runs long after its wake-up), every tenth a crowd of 120-180 clients on 1-2 processors (more senders than the watermark channels have slots; judged by the definite rules only: lost updates, conflict interval rules, local rules); every call recorded with one atomic logical clock; checked offline with porcupine (snapshot-read model at Begin intervals, strict-serializability model over whole lifetimes; single-key and key-pair projections first, then the full history), conflict interval rules and local rules (no reads of uncommitted/overwritten/alien values); "
 
 func init() {
 	reg := func(prop, ntRule string, sq, st, cq, ct, old int, minQ, minT int, assumptions []string) {
